@@ -808,4 +808,114 @@ Theorem gen_no_panic n b parents (lens : list L) :
   safe (generate_caterpillar n b lens).
 Proof. splits; [apply ete3_no_panic|apply yule_no_panic|apply cat_no_panic]. Qed.
 
+(* ---- caterpillar ------------------------------------------------------------------------------------ *)
+(* the spine: internal node number j sits in slot pid j = 0, 1, 3, 5, ...; its children are the next
+   spine node pid (j+1) = 2j+1 and the leaf 2j+2 *)
+Definition pid (j : nat) : nat := 2 * j - 1.
+
+(* after m non-final steps: the current parent pid m is an unnamed tip *)
+Definition CI (m : nat) t : Prop :=
+  forall i nd, nth_error t i = Some nd ->
+    (i = pid m /\ nchildren nd = [] /\ nname nd = None) \/
+    (exists j, j < m /\ i = pid j /\ nchildren nd = [pid (S j); S (pid (S j))]) \/
+    (exists j, 1 <= j <= m /\ i = 2 * j /\ nchildren nd = [] /\ nname nd = Some (tip_name j)).
+
+(* after the final step (number m+1) *)
+Definition CF (m : nat) t : Prop :=
+  forall i nd, nth_error t i = Some nd ->
+    (exists j, j <= m /\ i = pid j /\ nchildren nd = [pid (S j); S (pid (S j))]) \/
+    (exists j, nchildren nd = [] /\ nname nd = Some (tip_name j) /\
+       ((1 <= j <= m /\ i = 2 * j) \/ (j = m + 1 /\ i = 2 * m + 1) \/ (j = m + 2 /\ i = 2 * m + 2))).
+
+Lemma CI_init : CI 0 t0.
+Proof. intros [|[|i]] nd H; try discriminate. injection H as <-. left. simpl. auto. Qed.
+
+Lemma CI_parent_tip P b m t : GI P b m t -> CI m t -> tipat t (pid m).
+Proof.
+  intros G HC. assert (Hlt : pid m < length t) by (rewrite (gi_len _ _ _ _ G); unfold pid; lia).
+  destruct (nth_error t (pid m)) as [nd|] eqn:E; [|apply nth_error_None in E; lia].
+  exists nd. split; auto.
+  destruct (HC _ _ E) as [(_ & Hc & _)|[(j & Hj & Hi & _)|(j & Hj & Hi & _)]]; auto; unfold pid in *; lia.
+Qed.
+
+Lemma CI_step P b m t np e1 e2 :
+  GI P b m t -> CI m t -> nth_error t (pid m) = Some np -> nchildren np = [] ->
+  CI (S m) (split_arena t (pid m) np None (Some (tip_name (S m))) e1 e2).
+Proof.
+  intros G HC Hn Hc i nd Hi. pose proof (gi_len _ _ _ _ G) as Hlen.
+  destruct (split_node_fields np (length t) e1 e2) as (_ & _ & _ & _ & Fc & Fn).
+  rewrite Hc in Fc. simpl in Fc.
+  destruct (split_slots_inv _ _ _ _ _ _ _ _ _ Hn Hi) as [[-> ->]|[[-> ->]|[[-> ->]|(Hne & Hjl & Hj')]]].
+  - right; left. exists m. splits; auto. rewrite Fc, Hlen. unfold pid. replace (2 * S m - 1) with (2 * m + 1) by lia. reflexivity.
+  - left. simpl. splits; auto. unfold pid. lia.
+  - right; right. exists (S m). simpl. splits; auto; lia.
+  - destruct (HC _ _ Hj') as [(Hi' & _)|[(j & Hj & Hi' & Hcj)|(j & Hj & Hi' & Hcj & Hnj)]]; [congruence| |].
+    + right; left. exists j. splits; auto.
+    + right; right. exists j. splits; auto; lia.
+Qed.
+
+Lemma CF_step P b m t np e1 e2 :
+  GI P b m t -> CI m t -> nth_error t (pid m) = Some np -> nchildren np = [] ->
+  CF m (split_arena t (pid m) np (Some (tip_name (S m))) (Some (tip_name (S m + 1))) e1 e2).
+Proof.
+  intros G HC Hn Hc i nd Hi. pose proof (gi_len _ _ _ _ G) as Hlen.
+  destruct (split_node_fields np (length t) e1 e2) as (_ & _ & _ & _ & Fc & Fn).
+  rewrite Hc in Fc. simpl in Fc.
+  destruct (split_slots_inv _ _ _ _ _ _ _ _ _ Hn Hi) as [[-> ->]|[[-> ->]|[[-> ->]|(Hne & Hjl & Hj')]]].
+  - left. exists m. splits; auto. rewrite Fc, Hlen. unfold pid. replace (2 * S m - 1) with (2 * m + 1) by lia. reflexivity.
+  - right. exists (S m). simpl. splits; auto. right; left. lia.
+  - right. exists (S m + 1). simpl. splits; auto. right; right. lia.
+  - destruct (HC _ _ Hj') as [(Hi' & _)|[(j & Hj & Hi' & Hcj)|(j & Hj & Hi' & Hcj & Hnj)]]; [congruence| |].
+    + left. exists j. splits; auto. lia.
+    + right. exists j. splits; auto.
+Qed.
+
+Lemma cat_loop_inv P b n : forall steps i t parent lens t',
+  1 <= i -> i + steps = n -> 1 <= steps ->
+  GI P b (i - 1) t -> CI (i - 1) t -> parent = pid (i - 1) -> Forall P lens ->
+  gen_cat_loop steps i n b t parent lens = Ok (Some t') ->
+  GI P b (n - 1) t' /\ CF (n - 2) t'.
+Proof.
+  induction steps as [|k IH]; intros i t parent lens t' Hi Hn Hs G HC -> HF H; [lia|].
+  simpl in H.
+  destruct (take2 b lens) as [[[l1' l2'] lens']|] eqn:Ht; [|discriminate].
+  destruct (take2_ok _ _ _ _ _ _ HF Ht) as (He1 & He2 & HF').
+  pose proof (CI_parent_tip _ _ _ _ G HC) as Htp.
+  destruct (Nat.eqb_spec i (n - 1)) as [E|E].
+  - apply bind_Ok in H as ([t1 c1] & H1 & H). apply bind_Ok in H as ([t2 c2] & H2 & H).
+    destruct (split_step _ _ _ _ _ _ _ _ _ _ _ _ _ G Htp He1 He2 H1 H2) as (np & Hnp & Hc & -> & -> & -> & G').
+    assert (k = 0) by lia. subst k. simpl in H. destruct lens'; [|discriminate]. injection H as <-.
+    replace (n - 1) with (S (i - 1)) by lia. split; auto.
+    replace (n - 2) with (i - 1) by lia.
+    replace i with (S (i - 1)) at 2 3 by lia. replace (S (i - 1) + 1) with (S (i - 1) + 1) by lia.
+    eapply CF_step; eauto.
+  - apply bind_Ok in H as ([t1 c1] & H1 & H). apply bind_Ok in H as ([t2 c2] & H2 & H).
+    destruct (split_step _ _ _ _ _ _ _ _ _ _ _ _ _ G Htp He1 He2 H1 H2) as (np & Hnp & Hc & -> & -> & -> & G').
+    eapply IH; [| | | | | |eauto|eauto]; try lia.
+    + replace (S i - 1) with (S (i - 1)) by lia. auto.
+    + replace (S i - 1) with (S (i - 1)) by lia. replace i with (S (i - 1)) at 2 by lia.
+      eapply CI_step; eauto.
+    + rewrite (gi_len _ _ _ _ G). unfold pid. lia.
+Qed.
+
+Theorem cat_final n b (lens : list L) t :
+  2 <= n -> generate_caterpillar n b lens = Ok (Some t) ->
+  gen_final (fun l => In l lens) b 1 n t /\ CF (n - 2) t.
+Proof.
+  intros Hn H. unfold generate_caterpillar in H.
+  change (gen_cat_loop (n - 1) 1 n b t0 0 lens = Ok (Some t)) in H.
+  assert (HF : Forall (fun l => In l lens) lens) by (apply Forall_forall; auto).
+  destruct (cat_loop_inv (fun l => In l lens) b n (n - 1) 1 t0 0 lens t) as (G & HC); auto; try lia.
+  - apply GI_init.
+  - apply CI_init.
+  - split; auto. split; auto.
+    split.
+    + intros i nd Hi Hc. destruct (HC _ _ Hi) as [(j & _ & _ & Hcj)|(j & _ & Hnm & Hj)]; [congruence|].
+      exists j. split; auto. lia.
+    + intros i i' nd nd' Hi Hi' Hc Hc' Hne E.
+      destruct (HC _ _ Hi) as [(j & _ & _ & Hcj)|(j & _ & Hnm & Hj)]; [congruence|].
+      destruct (HC _ _ Hi') as [(j' & _ & _ & Hcj')|(j' & _ & Hnm' & Hj')]; [congruence|].
+      assert (E' : tip_name j = tip_name j') by congruence. apply tip_name_inj in E'. lia.
+Qed.
+
 End Gen.
